@@ -202,11 +202,11 @@ Section Pending.
         apply (I_le (fold_left (end_block p) (active_blocks p s) s)); [apply le_with_tag|]. now apply I_end_blocks.
       + (* KWatch *) destruct (negb (interrupt_registered (st s n))); [now apply I_register|]. destruct (negb b); [exact C|].
         destruct (cancelled (st s n)); [exact C|]. unfold watch_await. destruct (activated (st s n)); [exact C|].
-        destruct (cancelled (st s n)); [exact C|]. unfold try_activate.
+        destruct (cancelled (st s n)); [exact C|]. unfold try_activate. destruct (cancelled (st s n)); [exact C|].
         destruct (forced (st s n)); [apply NN; ll|]. destruct (memn n (e_cond_err e)); [exact C|].
         destruct (memn n (e_cond_true e)); [apply NN; ll|exact C].
       + (* KAlarm *) destruct (negb (interrupt_registered (st s n))); [now apply I_register|]. destruct (negb b); [exact C|].
-        unfold alarm_await. destruct (activated (st s n)); [exact C|]. unfold try_activate.
+        unfold alarm_await. destruct (activated (st s n)); [exact C|]. unfold try_activate. destruct (cancelled (st s n)); [exact C|].
         destruct (forced (st s n)); [apply NN; ll|]. destruct (memn n (e_cond_err e)); [exact C|].
         destruct (memn n (e_cond_true e)); [apply NN; ll|exact C].
       + (* KWait *) set (s1 := set_ns s n _). assert (N1 : le s s1) by (unfold s1; ll).
@@ -241,12 +241,12 @@ Section Pending.
       + apply NN. ll.
     - (* FNoop *) destruct (n_kind (nd p n)); try exact C. destruct (Nat.ltb _ _); [exact C|apply NN; ll].
     - (* FWatchAwait *) unfold watch_await. destruct (activated (st s n)); [exact C|].
-      destruct (cancelled (st s n)); [exact C|]. unfold try_activate.
+      destruct (cancelled (st s n)); [exact C|]. unfold try_activate. destruct (cancelled (st s n)); [exact C|].
       destruct (forced (st s n)); [apply NN; ll|]. destruct (memn n (e_cond_err e)); [exact C|].
       destruct (memn n (e_cond_true e)); [apply NN; ll|exact C].
     - exact C.
     - apply NN. ll.
-    - (* FAlarmAwait *) unfold alarm_await. destruct (activated (st s n)); [exact C|]. unfold try_activate.
+    - (* FAlarmAwait *) destruct (n_kind (nd p n)); try exact C. unfold alarm_await. destruct (activated (st s n)); [exact C|]. unfold try_activate. destruct (cancelled (st s n)); [exact C|].
       destruct (forced (st s n)); [apply NN; ll|]. destruct (memn n (e_cond_err e)); [exact C|].
       destruct (memn n (e_cond_true e)); [apply NN; ll|exact C].
     - exact C.
